@@ -170,7 +170,24 @@ void LayoutSession::checkC07(const char *when) {
     if (!reported.empty()) probe("layout.unsatisfiable-reported");
     std::string ctx = fmt("after %s (iterations %d, makeFeasible %d, reported %zu)", when, convCalls, (int)madeFeasible, reported.size());
     // makeFeasible() drops constraints it cannot satisfy without writing to the unsatisfiable lists (only run() reports)
-    std::string sfx = !lastProjectionByMakeFeasible ? "" : spec["cfg"].boolean("contradiction", false) ? ":contradictory-set:dropped-by-makeFeasible-without-report" : ":satisfiable-set:dropped-by-makeFeasible-without-report";
+    // classifier for KF-C07-b: some dimension holds an inequality between two nodes that equality-type constraints (alignment,
+    // fixed-relative, equality separation, distribution) already tie together -- the incremental solver then flags a
+    // constraint of that equality block as unsatisfiable although the set is satisfiable
+    bool redundantInEqBlock = false;
+    for (int dim = 0; dim < 2 && !redundantInEqBlock; dim++) {
+        std::vector<int> par(rs.size()); for (size_t i = 0; i < par.size(); i++) par[i] = (int)i;
+        std::function<int(int)> find = [&](int x) { while (par[x] != x) x = par[x] = par[par[x]]; return x; };
+        auto uni = [&](unsigned a, unsigned b) { if (a < par.size() && b < par.size()) par[find((int)a)] = find((int)b); };
+        for (auto &a : als) if (a.dim == dim) for (size_t k = 1; k < a.sh.size(); k++) uni(a.sh[0].first, a.sh[k].first);
+        for (auto &f : frs) for (size_t k = 1; k < f.ids.size(); k++) uni(f.ids[0], f.ids[k]);
+        for (auto &sp : seps) if (sp.dim == dim && sp.eq) uni(sp.l, sp.r);
+        for (auto &ap : aps) if (ap.dim == dim && ap.eq && !als[ap.a].sh.empty() && !als[ap.b].sh.empty()) uni(als[ap.a].sh[0].first, als[ap.b].sh[0].first);
+        for (auto &sp : seps) if (sp.dim == dim && !sp.eq && find((int)sp.l) == find((int)sp.r)) redundantInEqBlock = true;
+        for (auto &ap : aps) if (ap.dim == dim && !ap.eq && !als[ap.a].sh.empty() && !als[ap.b].sh.empty() && find((int)als[ap.a].sh[0].first) == find((int)als[ap.b].sh[0].first)) redundantInEqBlock = true;
+        for (auto &b : bds) if (b.dim == dim) for (size_t i = 0; i < b.sh.size(); i++) for (size_t j = i + 1; j < b.sh.size(); j++) if ((b.sh[i].second < 0) != (b.sh[j].second < 0) && find((int)b.sh[i].first) == find((int)b.sh[j].first)) redundantInEqBlock = true;
+    }
+    std::string sfx = !lastProjectionByMakeFeasible ? "" : spec["cfg"].boolean("contradiction", false) ? ":contradictory-set:dropped-by-makeFeasible-without-report"
+                      : redundantInEqBlock ? ":satisfiable-set:inequality-inside-an-equality-block:dropped-by-makeFeasible-without-report" : ":satisfiable-set:dropped-by-makeFeasible-without-report";
     for (auto &s : seps) {
         if (reported.count(s.cc) || !dimJudged[s.dim]) continue;
         double l = P(s.dim, s.l), r = P(s.dim, s.r);
@@ -349,7 +366,7 @@ Json genLayoutSession(Rng &r, const std::string &tier, int flavour /*0 constrain
     Json cfg = Json::obj();
     int n = r.range(tier == "thorough" ? 4 : 3, 12);
     if (r.chance(0.03)) n = r.range(1, 2);
-    bool overlaps = flavour == 1 || (flavour == 2 && r.chance(0.5));
+    bool overlaps = flavour == 1 || flavour == 2;
     bool coincident = r.chance(0.15);
     std::vector<double> w(n), h(n), Wx(n), Wy(n);     // sizes and hidden witness placement
     Json rects = Json::arr();
@@ -530,13 +547,13 @@ static Json genLayoutPlan(const std::string &prop, uint64_t seed, const std::str
     Rng r(Rng::mix(seed, "plan"));
     Json p = planSkeleton(prop, "layout", seed, r, 200);
     Json ss = Json::arr();
-    int flavour = prop == "C08" ? 1 : 0;
     int nsess = r.chance(0.35) ? 2 : 1;
-    for (int i = 0; i < nsess; i++) ss.push(genLayoutSession(r, tier, flavour));
+    // C07 also judges layouts with overlap avoidance (user constraints from a non-overlapping witness), e.g. after makeFeasible() alone
+    for (int i = 0; i < nsess; i++) ss.push(genLayoutSession(r, tier, prop == "C08" ? 1 : (r.chance(0.35) ? 2 : 0)));
     if (r.chance(0.25)) ss.push(genOverlapSession(r, "quick"));     // shares Rectangle::xBorder/yBorder with makeFeasible
     p.set("sessions", ss);
     return p;
 }
 static GenRegistrar gl7("C07", genLayoutPlan), gl8("C08", genLayoutPlan);
-static Json mixLayout(Rng &r, const std::string &tier, bool) { return genLayoutSession(r, tier, 2); }
+static Json mixLayout(Rng &r, const std::string &tier, bool) { return genLayoutSession(r, tier, r.chance(0.5) ? 2 : 0); }
 static MixGenRegistrar mgl(mixLayout);
